@@ -389,6 +389,52 @@ func NewGSS(m map[string][]int) StreamSet {
 	return GSS{fpgo.StreamSetFromMap(mm)}
 }
 
+// NewGSSChunked: like NewGSS, but the streams of the set are consecutive windows of ONE backing list (in key order, with
+// three more cells behind the last): each stream has spare capacity that is its neighbour's data.
+func NewGSSChunked(m map[string][]int) StreamSet {
+	mm := map[string]*fpgo.StreamDef[int]{}
+	back, offs := chunkLayout(m)
+	for k, v := range m {
+		if v == nil {
+			mm[k] = nil
+		} else {
+			mm[k] = fpgo.StreamFromArray(back[offs[k] : offs[k]+len(v)])
+		}
+	}
+	return GSS{fpgo.StreamSetFromMap(mm)}
+}
+
+func chunkLayout(m map[string][]int) ([]int, map[string]int) {
+	var keys []string
+	for k := range m {
+		keys = append(keys, k)
+	}
+	sort.Strings(keys)
+	var back []int
+	offs := map[string]int{}
+	for _, k := range keys {
+		offs[k] = len(back)
+		back = append(back, m[k]...)
+	}
+	back = append(back, -7, -7, -7)
+	return back[:len(back):len(back)], offs
+}
+
+// NewISSChunked: the interface{} twin of NewGSSChunked.
+func NewISSChunked(m map[string][]int) StreamSet {
+	mm := map[interface{}]*fpgo.StreamForInterfaceDef{}
+	back, offs := chunkLayout(m)
+	bi := ifaces(back)
+	for k, v := range m {
+		if v == nil {
+			mm[k] = nil
+		} else {
+			mm[k] = fpgo.StreamForInterface.FromArray(bi[offs[k] : offs[k]+len(v)])
+		}
+	}
+	return ISS{fpgo.StreamSetForInterfaceFromMap(mm)}
+}
+
 func gss(o StreamSet) *fpgo.StreamSetDef[string, int] {
 	if o == nil {
 		return nil
